@@ -51,8 +51,16 @@ def canon(v):
     return v if isinstance(v, str) else repr(v)
 
 
+class RunawayTerm(Exception):
+    """A value keeps feeding the node that produced it (only a broken library wires a renamed node back into itself):
+    terms would double in size with every step."""
+
+
 def herbrand(tag, j, args):
-    return f"{tag}.r{j}(" + ",".join(f"{p}={canon(v)}" for p, v in args) + ")"
+    text = f"{tag}.r{j}(" + ",".join(f"{p}={canon(v)}" for p, v in args) + ")"
+    if len(text) > 20000:
+        raise RunawayTerm(f"term of {len(text)} characters at {tag}")
+    return text
 
 
 def _ret(tag, nout, args):
@@ -269,11 +277,11 @@ def execute(node, case, run, cache=None):
         if run.get("bind") is not None:
             g = g.bind(**{cur[run["bind"]]: f"obound.{run['bind']}"})
         if run["mode"] == "sync":
-            r = _SYNC.run(g, supplied)
+            r = _SYNC.run(g, supplied, max_iterations=30)
         elif run["mode"] == "async":
-            r = _arun(_ASYNC.run(g, supplied))
+            r = _arun(_ASYNC.run(g, supplied, max_iterations=30))
         else:  # pause, then resume with the human answer
-            r1 = _arun(_ASYNC.run(g, supplied))
+            r1 = _arun(_ASYNC.run(g, supplied, max_iterations=30))
             obs["pause_status"] = r1.status.value
             obs["pause_key"] = r1.pause.output_param if r1.pause is not None else None
             obs["pause_node"] = r1.pause.node_name if r1.pause is not None else None
@@ -567,7 +575,7 @@ def run_alpha(case):
         try:
             base = _alpha_nodes(shape, set(case["dparams"]), case["wrap"])
             del LOG[:]
-            r0 = _SYNC.run(Graph(base), {p: f"in.{p}" for p in case["provided"]})
+            r0 = _SYNC.run(Graph(base), {p: f"in.{p}" for p in case["provided"]}, max_iterations=30)
             log0 = _norm_log()
         except Exception:  # noqa: BLE001 - the original is not a program of the family
             return []
@@ -578,7 +586,7 @@ def run_alpha(case):
                     _walk_differs([list(b.items()) for b in pin], {sigma[p]: p for p in n.inputs}) for n, (_, pin) in zip(base, rp)):
                 k = K_RESOLVE      # a wrapped node's default lookup goes through the batch-unaware walk
             del LOG[:]
-            r1 = _SYNC.run(Graph(ren), {sigma[p]: f"in.{p}" for p in case["provided"]})
+            r1 = _SYNC.run(Graph(ren), {sigma[p]: f"in.{p}" for p in case["provided"]}, max_iterations=30)
             log1 = _norm_log()
         except Exception as e:  # noqa: BLE001
             return [(k, f"exception {type(e).__name__}: {str(e)[:200]}")]
